@@ -14,3 +14,5 @@ import DSymVerif.Props.C17
 #print axioms DSymVerif.C17.yes_cover_is_a_branchfree_oriented_covering
 #print axioms DSymVerif.C17.yes_cover_group_is_Z3_presented
 #print axioms DSymVerif.C17.yes_certificate_sound
+#print axioms DSymVerif.C17.prefix_total
+#print axioms DSymVerif.C17.invariant_group_part_iso_invariant
